@@ -23,6 +23,7 @@ def run(ctx):
     render.canvas(ctx)
     render.order(ctx)
     render.duplicate_cel(ctx)
+    render.cel_rows_grow_only(ctx, rule='K3')
     render.gate(ctx)
     render.ancestor_walk(ctx)
     render.opacity_and_mode(ctx)
